@@ -8,6 +8,7 @@ From Coq Require Import ZArith NArith List Bool String Ascii Lia.
 From Valida Require Import Py Lang Defs Cond Dsl Check DocSem Path Cast Str SpecDefs RuleDefs RuleTerms
   Spec SpecSpell Inst RunSpec.
 From Valida.Proofs Require Import PyFacts Tie C01Proof C02Proof RuleProof.
+From Valida Require Import Rule SpecSpell.   (* `plain` is SpecSpell's, not RuleProof's *)
 Import ListNotations.
 Local Open Scope string_scope.
 Local Open Scope list_scope.
@@ -491,7 +492,7 @@ Proof.
   - cbn [forallb fst] in H. apply andb_true_iff in H as [Hk Hr]. unfold key_clean in Hk.
     apply negb_true_iff in Hk. rewrite Hk. fold (skv (k, v)).
     change ((VStr k, v)) with (skv (k, v)).
-    rewrite (IH _ moved found Hr). rewrite <- app_assoc. reflexivity.
+    rewrite (IH _ moved found Hr). rewrite <- !app_assoc. reflexivity.
 Qed.
 
 Lemma pfs_kwd items : items_ok items = true -> pfs (VDict (map skv items)) = Err MalformedPath.
@@ -531,3 +532,370 @@ Proof.
   intros Hok Hpl. unfold kwd. change (fun kv : string * pyval => (VStr (fst kv), snd kv)) with skv.
   unfold coerce. rewrite (pfs_kwd items Hok), (coerce_kvs_plain items Hpl). reflexivity.
 Qed.
+
+(* ---- assembly: the value-dependent part of parse_leaf ---- *)
+
+Definition leaf_result (c : scls) (q : dsl) : cond arg1 := cmapL (CLeaf (expected_leaf c q)).
+
+Lemma tail_ok c q v2 cv pos0 kw0 :
+  class_ok c q = true ->
+  coerce pfs v2 = Ok cv ->
+  dispatch_by (q_shape q) cv = Ok (map ALit pos0, kmapL kw0) ->
+  build_leaf T idlit (scls_name c) (q_method q) pos0 kw0 = Ok (expected_leaf c q) ->
+  leaf_tail (scls_class c) (q_method q) (q_ctor c q) v2 =
+  Ok (DLeaf (scls_name c) (q_method q) (map ALit pos0) (kmapL kw0), leaf_result c q).
+Proof.
+  intros Hcls Hc Hd Hb. unfold leaf_tail. rewrite Hc. cbn [bind].
+  rewrite dispatch_shape, (q_ctor_shape c q Hcls), Hd. cbn [bind].
+  rewrite scls_class_name.
+  rewrite (build_leaf_map pyval arg1 ALit idlit ALit (fun v => eq_refl) T (scls_name c) (q_method q) pos0 kw0).
+  rewrite Hb. reflexivity.
+Qed.
+
+Lemma tail_zero c q :
+  class_ok c q = true -> q_shape q = (0, false, false)%nat -> q_call q = (q_method q, [], []) ->
+  exists t, leaf_tail (scls_class c) (q_method q) (q_ctor c q) VNone = Ok (t, leaf_result c q).
+Proof.
+  intros Hcls Hs Hq. eexists.
+  apply (tail_ok c q VNone (CVal VNone) [] [] Hcls eq_refl).
+  - rewrite Hs. reflexivity.
+  - pose proof (tie_build c q Hcls) as Hb. unfold built in Hb. rewrite Hq in Hb. exact Hb.
+Qed.
+
+Lemma tail_one c q v :
+  class_ok c q = true -> q_shape q = (1, false, false)%nat -> q_call q = (q_method q, [v], []) ->
+  plain v = true ->
+  exists t, leaf_tail (scls_class c) (q_method q) (q_ctor c q) v = Ok (t, leaf_result c q).
+Proof.
+  intros Hcls Hs Hq Hpl. destruct (coerce_plain v Hpl) as [cv [Hc Hv]]. eexists.
+  apply (tail_ok c q v cv [v] [] Hcls Hc).
+  - rewrite Hs. cbn [dispatch_by Nat.eqb negb andb]. rewrite Hv. reflexivity.
+  - pose proof (tie_build c q Hcls) as Hb. unfold built in Hb. rewrite Hq in Hb. exact Hb.
+Qed.
+
+Lemma tail_star c q l :
+  class_ok c q = true -> q_shape q = (0, true, false)%nat -> q_call q = (q_method q, l, []) ->
+  forallb plain l = true ->
+  exists t, leaf_tail (scls_class c) (q_method q) (q_ctor c q) (VList l) = Ok (t, leaf_result c q).
+Proof.
+  intros Hcls Hs Hq Hpl. eexists.
+  apply (tail_ok c q (VList l) _ l [] Hcls (coerce_plain_list l Hpl)).
+  - rewrite Hs. cbn [dispatch_by Nat.eqb negb andb]. rewrite item_arg_inr. reflexivity.
+  - pose proof (tie_build c q Hcls) as Hb. unfold built in Hb. rewrite Hq in Hb. exact Hb.
+Qed.
+
+Lemma tail_kw c q items :
+  class_ok c q = true -> (q_shape q = (2, false, false) \/ q_shape q = (0, false, true))%nat ->
+  build_leaf T idlit (scls_name c) (q_method q) [] items = Ok (expected_leaf c q) ->
+  items_ok items = true -> forallb plain (map snd items) = true ->
+  exists t, leaf_tail (scls_class c) (q_method q) (q_ctor c q) (kwd items) = Ok (t, leaf_result c q).
+Proof.
+  intros Hcls Hs Hb Hok Hpl. eexists.
+  apply (tail_ok c q (kwd items) _ [] items Hcls (coerce_kwd items Hok Hpl)); [|exact Hb].
+  destruct Hs as [Hs|Hs]; rewrite Hs; cbn [dispatch_by Nat.eqb Nat.ltb Nat.leb negb andb];
+    rewrite kw_of_lit; reflexivity.
+Qed.
+
+(* the side condition on `items_contain( **items )`: see the counterexamples below *)
+Definition q_items_ok (q : dsl) : bool :=
+  match q with Q_items_contain items => items_ok items | _ => true end.
+
+Lemma q_plain_app q m pos kw : q_call q = (m, pos, kw) -> q_plain q = forallb plain (pos ++ map snd kw).
+Proof. intros H. unfold q_plain, q_args. rewrite H. reflexivity. Qed.
+
+Lemma leaf_tail_ok c q :
+  class_ok c q = true -> q_plain q = true -> q_items_ok q = true ->
+  exists t, leaf_tail (scls_class c) (q_method q) (q_ctor c q) (q_spec_val q) = Ok (t, leaf_result c q).
+Proof.
+  intros Hcls Hpl Hit.
+  assert (Hkw : forall r, built_kw c q = Some r -> r = Ok (expected_leaf c q))
+    by (intros r; apply tie_build_kw; exact Hcls).
+  destruct q; cbn [q_spec_val]; unfold q_plain, q_args in Hpl; cbn [q_call app map snd forallb] in Hpl;
+    rewrite ?andb_true_r in Hpl.
+  (* one named parameter *)
+  1-8,12-13,18,25-26: apply tail_one; [exact Hcls|reflexivity|reflexivity|exact Hpl].
+  (* two named parameters: the spec is a keyword mapping *)
+  1-3,10-12: apply andb_true_iff in Hpl as [Hp1 Hp2];
+    (apply tail_kw; [exact Hcls|left; reflexivity|exact (Hkw _ eq_refl)|reflexivity|
+                     cbn [map snd forallb]; rewrite Hp1, Hp2; reflexivity]).
+  (* no parameter *)
+  1-3: apply tail_zero; [exact Hcls|reflexivity|reflexivity].
+  (* *args *)
+  1-6,8-10: apply tail_star; [exact Hcls|reflexivity|reflexivity|rewrite app_nil_r in Hpl; exact Hpl].
+  (* **items *)
+  apply tail_kw; [exact Hcls|right; reflexivity| |exact Hit|exact Hpl].
+  pose proof (tie_build c (Q_items_contain items) Hcls) as Hb. exact Hb.
+Qed.
+
+Lemma leaf_in_c09_inv c q : leaf_in_c09 c q = true ->
+  class_ok c q = true /\ q_plain q = true /\ q_types_ok c q = true /\ q_wf q = true.
+Proof.
+  unfold leaf_in_c09, class_ok, q_wf. intros H.
+  apply andb_true_iff in H as [H H4]. apply andb_true_iff in H as [H H3]. apply andb_true_iff in H as [H1 H2].
+  repeat split; assumption.
+Qed.
+
+(* the canonical spec of a typed leaf parses (at any positive fuel) to the DSL's condition *)
+Lemma leaf_parse c q f :
+  leaf_in_c09 c q = true -> q_items_ok q = true ->
+  exists t, self1 (S f) (leaf_spec c q) = Ok (t, leaf_result c q).
+Proof.
+  intros Hin Hit. destruct (leaf_in_c09_inv c q Hin) as [Hcls [Hpl [Hty _]]].
+  unfold leaf_spec. fold (leaf_key c q).
+  rewrite self1_S, (step1_leaf _ _ _ (leaf_key_not_binop c q)), parse_leaf_head, (head_leaf c q Hcls).
+  cbn [run_head]. destruct (conv_ok c q Hty) as [H1 H2]. rewrite H1. cbn [bind]. rewrite H2. cbn [bind].
+  exact (leaf_tail_ok c q Hcls Hpl Hit).
+Qed.
+
+(* C09 on leaves, for every one of the 32 constructors on every class that has it.  The extra
+   hypothesis only concerns `items_contain( **items )`: no item name contains the escape code
+   "\path", and the mapping is not a single item named like a path spec. *)
+Theorem C09_leaf_partial : forall c q,
+  leaf_in_c09 c q = true -> q_items_ok q = true ->
+  exists t, cond1_from_spec T X (leaf_spec c q) = Ok (t, cond_map pyval arg1 ALit (CLeaf (expected_leaf c q))).
+Proof. intros c q Hin Hit. rewrite cond1_unfold. exact (leaf_parse c q 39 Hin Hit). Qed.
+
+(* without the side condition the statement is false: *)
+(* an item name containing the escape code is un-escaped by from_spec but not by the DSL ... *)
+Definition kwargs_of {A} (c : cond A) : list (string * A) := match c with CLeaf l => l_kwargs l | _ => [] end.
+
+Example C09_leaf_counterexample_escape :
+  let q := Q_items_contain [("\path", VInt 1)] in
+  leaf_in_c09 SValue q = true /\
+  leaf_spec SValue q = VDict [(VStr "value.items_contain", VDict [(VStr "\path", VInt 1)])] /\
+  (let* r := cond1_from_spec T X (leaf_spec SValue q) in Ok (kwargs_of (snd r))) = Ok [("path", ALit (VInt 1))] /\
+  l_kwargs (expected_leaf SValue q) = [("\path", VInt 1)].
+Proof. vm_compute. repeat split. Qed.
+
+(* ... and a single item named `path` makes the mapping a path spec, which items_contain refuses *)
+Example C09_leaf_counterexample_path :
+  let q := Q_items_contain [("path", VList [])] in
+  leaf_in_c09 SValue q = true /\
+  leaf_spec SValue q = VDict [(VStr "value.items_contain", VDict [(VStr "path", VList [])])] /\
+  cond1_from_spec T X (leaf_spec SValue q) = Err MalformedCond.
+Proof. vm_compute. repeat split. Qed.
+
+Example C09_leaf_counterexample_path2 :
+  cond1_from_spec T X (leaf_spec SValue (Q_items_contain [("PATH.len", VInt 3)])) = Err TypeError.
+Proof. vm_compute. reflexivity. Qed.
+
+(* ================================================================== *)
+(* 2. and / or / xor trees                                              *)
+
+Lemma binop_lookup o : assoc_str (bop_name o) (sx_binops X) = Some o.
+Proof. destruct o; reflexivity. Qed.
+
+(* an operator spec with two operands: the list is folded from the null condition *)
+Lemma step1_bin s o x y :
+  step1 s (VDict [(VStr (bop_name o), VList [x; y])]) =
+  let* (ta, ca) := s x in
+  let* c1 := mk_bin o CNull ca in
+  let* (tb, cb) := s y in
+  let* c2 := mk_bin o c1 cb in
+  Ok (DBin o (DBin o DNull ta) tb, c2).
+Proof.
+  unfold cond_from_spec_step. cbn [py_truthy negb]. rewrite binop_lookup.
+  destruct (s x) as [[ta ca]|e]; cbn [bind fst snd]; [|reflexivity].
+  destruct (mk_bin o CNull ca) as [c1|e]; cbn [bind fst snd]; [|reflexivity].
+  destruct (s y) as [[tb cb]|e]; cbn [bind fst snd]; [|reflexivity].
+  destruct (mk_bin o c1 cb) as [c2|e]; cbn [bind fst snd]; reflexivity.
+Qed.
+
+Lemma mk_bin_null_l o n : mk_bin o (@CNull arg1) (cmapL (cond_of n)) = Ok (cmapL (cond_of n)).
+Proof.
+  change (@CNull arg1) with (cmapL (cond_of QNull)).
+  rewrite mk_bin_map, mk_bin_cond_of. cbn [q_is_null].
+  destruct (q_is_null n) eqn:E; [|reflexivity].
+  apply q_is_null_eq in E. subst n. reflexivity.
+Qed.
+
+Definition tree_items_ok (t : qtree) : bool := forallb (fun cq => q_items_ok (snd cq)) (qleaves t).
+
+Lemma tree_in_c09_bin o a b : tree_in_c09 (QBin o a b) = true -> tree_in_c09 a = true /\ tree_in_c09 b = true.
+Proof. unfold tree_in_c09. cbn [qleaves]. rewrite forallb_app. apply andb_true_iff. Qed.
+Lemma tree_items_ok_bin o a b : tree_items_ok (QBin o a b) = true -> tree_items_ok a = true /\ tree_items_ok b = true.
+Proof. unfold tree_items_ok. cbn [qleaves]. rewrite forallb_app. apply andb_true_iff. Qed.
+
+Lemma qmixed_qnorm_bin_l o a b : qmixed (qnorm a) = true -> qmixed (qnorm (QBin o a b)) = true.
+Proof.
+  intros Ma. cbn [qnorm]. destruct (q_is_null (qnorm b)); [exact Ma|].
+  destruct (q_is_null (qnorm a)) eqn:Na.
+  - apply q_is_null_eq in Na. rewrite Na in Ma. discriminate Ma.
+  - apply qmixed_bin_l. exact Ma.
+Qed.
+Lemma qmixed_qnorm_bin_r o a b : qmixed (qnorm b) = true -> qmixed (qnorm (QBin o a b)) = true.
+Proof.
+  intros Mb. cbn [qnorm]. destruct (q_is_null (qnorm b)) eqn:Nb.
+  - apply q_is_null_eq in Nb. rewrite Nb in Mb. discriminate Mb.
+  - destruct (q_is_null (qnorm a)); [exact Mb|]. apply qmixed_bin_r. exact Mb.
+Qed.
+
+Lemma tree_parse t : forall f,
+  tree_depth t <= f -> tree_in_c09 t = true -> tree_items_ok t = true ->
+  if qmixed (qnorm t) then self1 f (tree_spec t) = Err TypeError
+  else exists tm, self1 f (tree_spec t) = Ok (tm, cmapL (cond_of (qnorm t))).
+Proof.
+  induction t as [c q| |o a IHa b IHb]; intros f Hd Hin Hit.
+  - cbn [tree_depth] in Hd. destruct f as [|f]; [lia|].
+    cbn [qnorm tree_spec]. rewrite qmixed_leaf.
+    unfold tree_in_c09 in Hin. cbn [qleaves forallb fst snd] in Hin. rewrite andb_true_r in Hin.
+    unfold tree_items_ok in Hit. cbn [qleaves forallb snd] in Hit. rewrite andb_true_r in Hit.
+    exact (leaf_parse c q f Hin Hit).
+  - cbn [tree_depth] in Hd. destruct f as [|f]; [lia|].
+    cbn [qnorm tree_spec]. rewrite qmixed_null, self1_S, step1_null. eexists. reflexivity.
+  - cbn [tree_depth] in Hd. destruct f as [|f]; [lia|].
+    apply tree_in_c09_bin in Hin as [Hina Hinb]. apply tree_items_ok_bin in Hit as [Hita Hitb].
+    assert (Hda : tree_depth a <= f) by lia. assert (Hdb : tree_depth b <= f) by lia.
+    specialize (IHa f Hda Hina Hita). specialize (IHb f Hdb Hinb Hitb).
+    cbn [tree_spec]. rewrite self1_S, step1_bin.
+    destruct (qmixed (qnorm a)) eqn:Ma.
+    { rewrite (qmixed_qnorm_bin_l o a b Ma), IHa. reflexivity. }
+    destruct IHa as [ta Ea]. rewrite Ea. cbn [bind]. rewrite mk_bin_null_l. cbn [bind].
+    destruct (qmixed (qnorm b)) eqn:Mb.
+    { rewrite (qmixed_qnorm_bin_r o a b Mb), IHb. reflexivity. }
+    destruct IHb as [tb Eb]. rewrite Eb. cbn [bind]. rewrite mk_bin_map, mk_bin_cond_of.
+    cbn [qnorm].
+    destruct (q_is_null (qnorm b)); [rewrite Ma; eexists; reflexivity|].
+    destruct (q_is_null (qnorm a)); [rewrite Mb; eexists; reflexivity|].
+    destruct (qmixed (QBin o (qnorm a) (qnorm b))); [reflexivity|eexists; reflexivity].
+Qed.
+
+(* C09 on trees: the canonical spec of a typed tree parses to what the DSL expression builds
+   (null operands are identities; mixing key and index conditions is a TypeError on both sides).
+   Same side condition on `items_contain` leaves as for C09_leaf_partial.  The depth bound is the
+   fuel of the model (spec_fuel = 40). *)
+Theorem C09_tree_partial : forall t,
+  tree_in_c09 t = true -> tree_items_ok t = true -> tree_depth t <= 40 ->
+  match build_expect (qnorm t) with
+  | Ok c => exists tm, cond1_from_spec T X (tree_spec t) = Ok (tm, cond_map pyval arg1 ALit c)
+  | Err e => cond1_from_spec T X (tree_spec t) = Err e
+  end.
+Proof.
+  intros t Hin Hit Hd. rewrite cond1_unfold. unfold build_expect.
+  pose proof (tree_parse t 40 Hd Hin Hit) as H.
+  destruct (qmixed (qnorm t)); exact H.
+Qed.
+
+(* ... i.e. exactly the condition of the DSL expression with literal arguments *)
+Lemma tree_in_c09_qtree_ok t : tree_in_c09 t = true -> qtree_ok t = true.
+Proof.
+  unfold tree_in_c09, qtree_ok. induction (qleaves t) as [|[c q] l IH]; cbn [forallb fst snd]; [reflexivity|].
+  intros H. apply andb_true_iff in H as [H1 H2]. rewrite (IH H2), andb_true_r.
+  destruct (leaf_in_c09_inv c q H1) as [Hc [_ [_ Hw]]]. unfold class_ok in Hc. unfold q_wf in Hw.
+  rewrite Hc, Hw. reflexivity.
+Qed.
+
+Theorem C09_tree_dsl_partial : forall t,
+  tree_in_c09 t = true -> tree_items_ok t = true -> tree_depth t <= 40 ->
+  rmap snd (cond1_from_spec T X (tree_spec t)) = build1 T (dslc_map ALit (qterm t)).
+Proof.
+  intros t Hin Hit Hd. rewrite build1_lit, (build_qterm t (tree_in_c09_qtree_ok t Hin)).
+  pose proof (C09_tree_partial t Hin Hit Hd) as H.
+  destruct (build_expect (qnorm t)) as [c|e].
+  - destruct H as [tm E]. rewrite E. reflexivity.
+  - rewrite H. reflexivity.
+Qed.
+
+Corollary C09_leaf_dsl_partial : forall c q,
+  leaf_in_c09 c q = true -> q_items_ok q = true ->
+  rmap snd (cond1_from_spec T X (leaf_spec c q)) = build1 T (dslc_map ALit (q_term c q)).
+Proof.
+  intros c q Hin Hit.
+  apply (C09_tree_dsl_partial (QLeaf c q)).
+  - unfold tree_in_c09. cbn [qleaves forallb fst snd]. rewrite Hin. reflexivity.
+  - unfold tree_items_ok. cbn [qleaves forallb snd]. rewrite Hit. reflexivity.
+  - cbn [tree_depth]. lia.
+Qed.
+
+(* ---- the positional (list) spelling of the two-parameter constructors ---- *)
+
+Definition q_two (q : dsl) : option (pyval * pyval) :=
+  match q with
+  | Q_in_range a b | Q_not_in_range a b | Q_equal_to_approx a b | Q_keys_contain_N_of a b
+  | Q_keys_contain_at_least_N_of a b | Q_keys_contain_at_most_N_of a b => Some (a, b)
+  | _ => None
+  end.
+
+Theorem C09_leaf_positional : forall c q a b,
+  leaf_in_c09 c q = true -> q_two q = Some (a, b) ->
+  exists t, cond1_from_spec T X (VDict [(VStr (scls_label c ++ "." ++ q_method q), VList [a; b])])
+            = Ok (t, cond_map pyval arg1 ALit (CLeaf (expected_leaf c q))).
+Proof.
+  intros c q a b Hin H2. destruct (leaf_in_c09_inv c q Hin) as [Hcls [Hpl [Hty _]]].
+  fold (leaf_key c q).
+  rewrite (cond1_leaf _ _ (leaf_key_not_binop c q)), (head_leaf c q Hcls). cbn [run_head].
+  assert (Hq : q_call q = (q_method q, [a; b], []) /\ q_shape q = (2, false, false)%nat /\ q_is_inst q = false /\ typed c = false).
+  { unfold q_types_ok in Hty. fold (typed c) in Hty.
+    destruct q; try discriminate H2; cbn [q_two] in H2; injection H2 as -> ->;
+      (destruct (typed c); [discriminate Hty|]); repeat split. }
+  destruct Hq as [Hq [Hs [Hi Ht]]]. rewrite Hi, Ht. cbn [conv bind].
+  rewrite (q_plain_app q _ _ _ Hq) in Hpl. cbn [app map] in Hpl.
+  eexists. apply (tail_ok c q (VList [a; b]) _ [a; b] [] Hcls (coerce_plain_list [a; b] Hpl)).
+  - rewrite Hs. cbn [dispatch_by Nat.eqb Nat.ltb Nat.leb negb andb]. rewrite item_arg_inr. reflexivity.
+  - pose proof (tie_build c q Hcls) as Hb. unfold built in Hb. rewrite Hq in Hb. exact Hb.
+Qed.
+
+(* ================================================================== *)
+(* non-vacuity                                                          *)
+
+Example ex_in_fragment :
+  leaf_in_c09 SValueLength (Q_in_range (VInt 1) (VInt 3)) = true /\
+  leaf_in_c09 SValueDataType (Q_in (VList [VType TInt; VType TStr])) = true /\
+  leaf_in_c09 SKey (Q_keys_contain_N_of (VInt 2) (VList [VStr "a"; VStr "b"; VStr "c"])) = true /\
+  leaf_in_c09 SValue (Q_items_contain [("a", VInt 1); ("b", VList [VStr "x"])]) = true /\
+  q_items_ok (Q_items_contain [("a", VInt 1); ("b", VList [VStr "x"])]) = true /\
+  leaf_in_c09 SValue (Q_equal_to (VDict [])) = false /\          (* a mapping could be a path spec *)
+  leaf_in_c09 SIndex (Q_required_keys [VStr "a"]) = false.       (* no such constructor on Index *)
+Proof. vm_compute. repeat split. Qed.
+
+Example ex_leaf_spec :
+  leaf_spec SValueLength (Q_in_range (VInt 1) (VInt 3))
+  = VDict [(VStr "value.length.in_range", VDict [(VStr "lower", VInt 1); (VStr "upper", VInt 3)])].
+Proof. reflexivity. Qed.
+
+(* letter case, the `len` alias and the positional list spelling: the same condition *)
+Example ex_spellings :
+  rmap snd (cond1_from_spec T X (VDict [(VStr "VALUE.Len.IN_RANGE", VList [VInt 1; VInt 3])]))
+  = rmap snd (cond1_from_spec T X (leaf_spec SValueLength (Q_in_range (VInt 1) (VInt 3)))) /\
+  rmap snd (cond1_from_spec T X (leaf_spec SValueLength (Q_in_range (VInt 1) (VInt 3))))
+  = Ok (cond_map pyval arg1 ALit (CLeaf (expected_leaf SValueLength (Q_in_range (VInt 1) (VInt 3))))).
+Proof. vm_compute. split; reflexivity. Qed.
+
+Example ex_type_names :
+  rmap snd (cond1_from_spec T X (VDict [(VStr "value.type.in", VList [VStr "INT"; VStr "Map"])]))
+  = rmap snd (cond1_from_spec T X (leaf_spec SValueDataType (Q_in (VList [VType TInt; VType TDict])))).
+Proof. vm_compute. reflexivity. Qed.
+
+Definition ex_tree : qtree :=
+  QBin BoAnd (QBin BoOr QNull (QLeaf SValue (Q_less_than (VInt 3))))
+             (QBin BoXor (QLeaf SValueLength (Q_equal_to (VInt 2))) QNull).
+
+Example ex_tree_ok : tree_in_c09 ex_tree = true /\ tree_items_ok ex_tree = true /\ tree_depth ex_tree = 3.
+Proof. vm_compute. repeat split. Qed.
+
+Example ex_tree_parse :
+  rmap snd (cond1_from_spec T X (tree_spec ex_tree))
+  = Ok (cond_map pyval arg1 ALit
+          (CBin BoAnd (CLeaf (expected_leaf SValue (Q_less_than (VInt 3))))
+                      (CLeaf (expected_leaf SValueLength (Q_equal_to (VInt 2)))))).
+Proof. vm_compute. reflexivity. Qed.
+
+(* key conditions cannot be combined with index conditions: TypeError from the spec as from the DSL *)
+Example ex_tree_mixed :
+  let t := QBin BoAnd (QLeaf SKey (Q_equal_to (VStr "a"))) (QLeaf SIndex (Q_equal_to (VInt 0))) in
+  tree_in_c09 t = true /\ cond1_from_spec T X (tree_spec t) = Err TypeError /\ build_expect (qnorm t) = Err TypeError.
+Proof. vm_compute. repeat split. Qed.
+
+Print Assumptions C09_case.
+Print Assumptions C09_aliases.
+Print Assumptions C09_alias_type.
+Print Assumptions C09_alias_len.
+Print Assumptions C09_alias_in.
+Print Assumptions C09_type_names.
+Print Assumptions C09_type_objects.
+Print Assumptions C09_type_name_or_object.
+Print Assumptions C09_leaf_partial.
+Print Assumptions C09_leaf_positional.
+Print Assumptions C09_tree_partial.
+Print Assumptions C09_tree_dsl_partial.
+Print Assumptions C09_leaf_dsl_partial.
